@@ -168,6 +168,11 @@ func chkCase(seed uint64, idx int) *CaseSpec {
 		r := rngFor(seed, idx)
 		t := &Trace{}
 		t.Add("begin %s", name)
+		// one GetResponse object is checked again and again within a history, refilled in place
+		// (often with as many entries as before): what a checker says is about the response as
+		// it is now
+		sharedResp := &spb.GetResponse{}
+		lastEnts := -1
 		for n := 0; n < 12; n++ {
 			switch r.IntN(6) {
 			case 0: // HasResult
@@ -273,7 +278,12 @@ func chkCase(seed uint64, idx int) *CaseSpec {
 					}
 				}
 				ents := []ge{}
-				for i := r.IntN(6); i > 0; i-- {
+				nEnts := r.IntN(6)
+				reuse := r.IntN(2) == 0
+				if reuse && lastEnts >= 0 && r.IntN(2) == 0 {
+					nEnts = lastEnts
+				}
+				for i := nEnts; i > 0; i-- {
 					if r.IntN(8) == 0 {
 						ents = append(ents, ge{[]string{"DEFAULT", "VRF1"}[r.IntN(2)], "mplsx", fmt.Sprint(r.IntN(2))})
 						continue
@@ -310,6 +320,11 @@ func chkCase(seed uint64, idx int) *CaseSpec {
 					}
 				}
 				resp := &spb.GetResponse{}
+				if reuse {
+					resp = sharedResp
+					resp.Entry = resp.Entry[:0]
+					lastEnts = len(ents)
+				}
 				for _, g := range ents {
 					resp.Entry = append(resp.Entry, toEntry(g))
 				}
